@@ -7,17 +7,45 @@
  * The Lean driver (lean/Main.lean) answers the same lines from the model. */
 #include "hx.h"
 #include <errno.h>
+#include <signal.h>
+#include <sys/time.h>
+#include <time.h>
+#include <unistd.h>
+
+/* "_limit_ms": N in the arguments arms a watchdog: an operation that is still running after N ms
+ * ends the process with status 97, which the orchestrator reports as {"timeout":true} for that line
+ * (C14: hostile parameters must not buy unbounded work) */
+static void
+on_alarm(int sig)
+{
+    (void) sig;
+    _exit(97);
+}
+
+static double
+now_ms(void)
+{
+    struct timespec ts;
+    clock_gettime(CLOCK_MONOTONIC, &ts);
+    return ts.tv_sec * 1000.0 + ts.tv_nsec / 1e6;
+}
+
+static int
+hexval(char c)
+{
+    if (c >= '0' && c <= '9') return c - '0';
+    if (c >= 'a' && c <= 'f') return c - 'a' + 10;
+    if (c >= 'A' && c <= 'F') return c - 'A' + 10;
+    return 0;
+}
 
 uint8_t *
 hx_unhex(const char *hex, size_t *len)
 {
     size_t n = strlen(hex) / 2;
     uint8_t *out = malloc(n ? n : 1);
-    for (size_t i = 0; i < n; i++) {
-        unsigned v = 0;
-        sscanf(&hex[2 * i], "%2x", &v);
-        out[i] = (uint8_t) v;
-    }
+    for (size_t i = 0; i < n; i++)
+        out[i] = (uint8_t) (hexval(hex[2 * i]) << 4 | hexval(hex[2 * i + 1]));
     *len = n;
     return out;
 }
@@ -161,7 +189,23 @@ hx_process(char *line)
      * reference counts of all argument nodes must be what they were */
     before = json_deep_copy(args);
     rc_before = hx_refsum(args);
-    res = fn(args);
+    {
+        long long lim = hx_arg_int(args, "_limit_ms", 0);
+        bool timed = hx_arg_bool(args, "_time", false);
+        double t0 = now_ms();
+        if (lim > 0) {
+            struct itimerval it = { { 0, 0 }, { lim / 1000, (lim % 1000) * 1000 } };
+            signal(SIGALRM, on_alarm);
+            setitimer(ITIMER_REAL, &it, NULL);
+        }
+        res = fn(args);
+        if (lim > 0) {
+            struct itimerval it = { { 0, 0 }, { 0, 0 } };
+            setitimer(ITIMER_REAL, &it, NULL);
+        }
+        if (timed && json_is_object(res))
+            json_object_set_new(res, "ms", json_integer((json_int_t) (now_ms() - t0)));
+    }
     if (!res)
         res = json_pack("{s:s}", "error", "op-returned-null");
     txt = json_dumps(res, JSON_COMPACT | JSON_SORT_KEYS | JSON_ENCODE_ANY);
